@@ -233,7 +233,15 @@ def add_obligations(out, prop, work=None):
     want = [h for h, ps in SERVES.items() if prop in ps or (out.tier == "thorough" and prop + "t" in ps)]
     if not want:
         return
-    res, lost, meta, plen = run(work, out.tier, want)
+    try:
+        res, lost, meta, plen = run(work, out.tier, want)
+    except Infra as e:
+        # the generator was restructured (a helper renamed or removed): the copy with the harness modules no longer builds.
+        # The helper obligations are UNDECIDED in this run; the property's other obligations still decide it.
+        out.notes.append("GEN: generator-helper obligations UNDECIDED in this run (the annotated copy does not build): " + str(e)[-300:])
+        out.extra["gen_undecided"] = "copy does not build"
+        res, lost, meta, plen = {}, [], {}, 0
+        want = []
     if lost:
         out.notes.append(f"GEN: anchors lost ({lost}); generator-helper obligations undecided in this run (not a violation)")
         out.extra["gen_undecided"] = lost
